@@ -651,12 +651,16 @@ fn bg_mode(inputs: &[Value], si: usize, sn: usize, out: &mut TraceOut, pend: &Pe
             ev["observed_ms"] = json!(now_ms());
             end_life(kv, &mut ev, &cfg);
             shim::stop();
-        } else if pattern == "sync" {
+        } else if pattern == "sync" || pattern == "sync-fault" {
             // interval sync: which file is fsynced when, across rotations of the active file
+            // (sync-fault: the second periodic fsync fails once - the ticks after it must go on as before)
             let cfg = json!({"sync": {"interval_ms": interval}, "max_file_size": 300});
             shim::start(&dir, false);
             FSYNCS.lock().unwrap().clear();
             shim::set_syscall_gate(Some(fsync_gate));
+            if pattern == "sync-fault" {
+                shim::fail_fsync_burst(1, 1, libc::EIO);
+            }
             let kv = make_config(&dir, &cfg).open().expect("open");
             let h = kv.get_handle();
             let mut actives: Vec<Value> = vec![];
@@ -707,10 +711,32 @@ fn bg_mode(inputs: &[Value], si: usize, sn: usize, out: &mut TraceOut, pend: &Pe
                 let now_s = tm.tm_hour as i64 * 3600 + tm.tm_min as i64 * 60 + tm.tm_sec as i64;
                 shim::set_clock_skew(hour * 3600 + 600 - now_s);
             }
+            let val = |n: usize| Bytes::from(vec![b'v'; n]);
+            if pattern == "frag-reopen" {
+                // an earlier incarnation (merge policy never) leaves a file above the trigger behind; the store is
+                // then opened with the policy under test and NO client does anything: the statistics rebuilt at
+                // open already exceed the trigger
+                let mut c0 = cfg.clone();
+                c0["merge"]["policy"] = json!("never");
+                let kv0 = make_config(&dir, &c0).open().expect("open");
+                let h0 = kv0.get_handle();
+                for j in 0..4 {
+                    let _ = h0.set(Bytes::from(format!("k{j}")), val(1));
+                }
+                for r in 0..2 {
+                    for j in 0..4 {
+                        let _ = h0.set(Bytes::from(format!("k{j}")), val(1 + r));
+                    }
+                }
+                drop(h0);
+                drop(kv0);
+                quiesce();
+                reset_clock();
+            }
             let kv = make_config(&dir, &cfg).open().expect("open");
             let h = kv.get_handle();
-            let val = |n: usize| Bytes::from(vec![b'v'; n]);
             match pattern.as_str() {
+                "frag-reopen" => {}
                 // dead fraction 2/12 = 0.17 and 2*27 = 54 dead bytes: above the thresholds, below the triggers
                 "between" => {
                     for j in 0..10 {
